@@ -104,7 +104,8 @@ def validate_trace(module: str, cfg: str, trace_file: pathlib.Path, *, timeout: 
         pass
     if rc != 0 or not verdict_file.exists():
         shutil.rmtree(meta, ignore_errors=True)
-        raise MachineryError(f"trace validation {module} did not complete (rc={rc})\n{out[-6000:]}")
+        errs = "\n".join([ln for ln in out.splitlines() if ln.startswith("Error:")][:5])
+        raise MachineryError(f"trace validation {module} did not complete (rc={rc})\n{errs}\n{out[-6000:]}")
     verdict = json.loads(verdict_file.read_text())
     shutil.rmtree(meta, ignore_errors=True)
     verdict["wall_s"] = round(wall, 2)
